@@ -1860,3 +1860,45 @@ pub fn subscription_id_reuse() -> Value {
 		json!({"probe":"subscription_id_reuse","disagrees":false,"histories_tried":1,"bound":"one connection, two subscriptions sharing id 7, one unsubscribe in between, the first sink dropped after the second was accepted"})
 	})
 }
+
+// ------------------------------------------------------------------------------------------
+/// C03 (schedules of the background tasks): a response that the transport delivers in fragments — its `receive()` future
+/// holding the part read so far — still completes its call while timer ticks (ping / inactivity checks) fire in between.
+pub fn client_fragmented_reply_with_timers() -> Value {
+	use jsonrpsee_core::client::async_client::PingConfig;
+	rt().block_on(async {
+		let mut tried = 0;
+		for gap_ms in [30u64, 120, 260] {
+			tried += 1;
+			let ping = PingConfig::new().ping_interval(std::time::Duration::from_millis(50)).inactive_limit(std::time::Duration::from_secs(5));
+			let (c, mut from_client, to_client) = mock::fragment_client(ClientBuilder::default().enable_ws_ping(ping).request_timeout(std::time::Duration::from_secs(3)));
+			let c = std::sync::Arc::new(c);
+			let (c1, c2) = (c.clone(), c.clone());
+			let f1 = tokio::spawn(async move { c1.request::<String, _>("m", rpc_params![1]).await.map_err(|e| e.to_string()) });
+			let f2 = tokio::spawn(async move { c2.request::<String, _>("m", rpc_params![2]).await.map_err(|e| e.to_string()) });
+			let mut ids = Vec::new();
+			for _ in 0..2 {
+				let m = tokio::time::timeout(std::time::Duration::from_secs(2), from_client.recv()).await.ok().flatten().unwrap_or_default();
+				let v: Value = serde_json::from_str(&m).unwrap_or(Value::Null);
+				ids.push((v["id"].clone(), v["params"][0].as_u64().unwrap_or(0)));
+			}
+			// answer in reverse order; the first answer arrives in two fragments `gap_ms` apart
+			let (ida, ka) = ids[1].clone();
+			let (idb, kb) = ids[0].clone();
+			let a = json!({"jsonrpc":"2.0","id":ida,"result":format!("answer-{ka}")}).to_string();
+			let (a1, a2) = a.split_at(a.len() / 2);
+			let _ = to_client.send(a1.to_string());
+			tokio::time::sleep(std::time::Duration::from_millis(gap_ms)).await;
+			let _ = to_client.send(format!("{a2}\n"));
+			let _ = to_client.send(format!("{}\n", json!({"jsonrpc":"2.0","id":idb,"result":format!("answer-{kb}")})));
+			let r1 = tokio::time::timeout(std::time::Duration::from_secs(4), f1).await.ok().and_then(|x| x.ok());
+			let r2 = tokio::time::timeout(std::time::Duration::from_secs(4), f2).await.ok().and_then(|x| x.ok());
+			if r1 != Some(Ok("answer-1".to_string())) || r2 != Some(Ok("answer-2".to_string())) {
+				return json!({"probe":"client_fragmented_reply_with_timers","disagrees":true,
+					"input": format!("2 concurrent calls, ping interval 50 ms; the first answer arrives in two fragments {gap_ms} ms apart (the transport's receive() future holds the first fragment), then the second answer"),
+					"observed": format!("call 1 -> {:?}, call 2 -> {:?}", r1, r2), "expected":"call 1 -> answer-1, call 2 -> answer-2"});
+			}
+		}
+		json!({"probe":"client_fragmented_reply_with_timers","disagrees":false,"histories_tried":tried,"bound":"3 fragment gaps (30, 120, 260 ms) against a 50 ms ping interval"})
+	})
+}
